@@ -51,6 +51,16 @@ class SimES:
     # ------------------------------------------------------------------
     def install(self):
         SimES.current = self
+        # ground truth for "which client issued this": the client id that EsClientFactory.create_async stored on the HTTP node the
+        # request travels through (independent of what the executor believes its client id is)
+        orig_create = rally_async.RallyAiohttpHttpNode._create_aiohttp_session
+
+        def _create_aiohttp_session(node):
+            orig_create(node)
+            node.session._verif_node_client = node.client_id
+
+        rally_async.RallyAiohttpHttpNode._create_aiohttp_session = _create_aiohttp_session
+        self._orig_create = orig_create
         self._saved = (
             rally_async.StaticRequest.send,
             rally_async.StaticResponse.start,
@@ -65,6 +75,9 @@ class SimES:
         return self
 
     def uninstall(self):
+        if getattr(self, "_orig_create", None) is not None:
+            rally_async.RallyAiohttpHttpNode._create_aiohttp_session = self._orig_create
+            self._orig_create = None
         if self._saved:
             (
                 rally_async.StaticRequest.send,
@@ -92,6 +105,7 @@ class SimES:
             "query": dict(req.original_url.query),
             "body": body if self.keep_bodies else (len(body) if body is not None else None),
             "client": issuer.get("client") if issuer else None,
+            "node_client": getattr(getattr(req, "_session", None), "_verif_node_client", None),
             "task": issuer.get("task") if issuer else None,
             "logical": issuer.get("ordinal") if issuer else None,
             "status": None,
